@@ -60,8 +60,8 @@ PG = postgresql.dialect()
 def _sib_descs(case, excluded=None):
     out = []
     menu = case["menu"]
-    if not case.get("pinned"):
-        # type pairs that reproduce known findings (with_variant mapping / Enum name+members missing from the cache key)
+    if False and not case.get("pinned"):  # both defects repaired in /repo: the pairs are generated again
+        # type pairs that reproduced findings (with_variant mapping / Enum name+members missing from the cache key)
         def _strip(n):
             if n[0] == "tc" and len(n) > 5 and n[5]:
                 n[5] = None
